@@ -2,6 +2,7 @@ package props
 
 import (
 	"encoding/binary"
+	"errors"
 	"fmt"
 	"math/rand"
 	"net"
@@ -553,7 +554,50 @@ func (h *hist) inStepControl(st *sim.Step) {
 	}
 }
 
+// serverWriteFails: the server's socket fails once (ENOBUFS, say) while relaying a peer's datagram
+// to its client. That datagram is lost; the allocation and its relay go on as before - the data
+// steps and probes that follow find out.
+func (h *hist) serverWriteFails() {
+	for _, c := range h.clients {
+		a, st := h.m.Alloc(c)
+		if a == nil || st != sim.Live || a.TCP || c.IsTCP || c.Closed || c.Listener >= len(h.w.ServerUDP) || a.RelayUDP == nil {
+			continue
+		}
+		for _, p := range h.peers {
+			if a.PermState(p.Addr.IP) != sim.Live || (p.Addr.IP.To4() != nil) != (a.Fam == 4) {
+				continue
+			}
+			sock := h.w.ServerUDP[c.Listener]
+			failed := false
+			to := c.Addr.String()
+			sock.SetWriteHook(func(b []byte, dst net.Addr) (int, error, bool) {
+				if failed || dst.String() != to {
+					return 0, nil, false
+				}
+				if m, err := wire.ParseSTUN(b); err == nil && !(m.Method == wire.MethodData && m.Class == wire.ClassIndication) {
+					return 0, nil, false // (a response: not what this step is about)
+				}
+				failed = true
+
+				return 0, errors.New("injected: no buffer space available"), true
+			})
+			_, _ = p.UDP.WriteTo([]byte("lost-in-the-servers-socket-write"), a.RelayUDP)
+			h.w.Settle()
+			sock.SetWriteHook(nil)
+			h.m.Audit(nil)
+			if failed {
+				h.rec.FP("server-write-to-client-failed-once")
+			}
+
+			return
+		}
+	}
+}
+
 func (h *hist) dataStep(n int) {
+	if h.rng.Intn(10) == 0 {
+		h.serverWriteFails()
+	}
 	st := h.m.Begin()
 	ctrlAt := -1
 	if h.rng.Intn(3) == 0 {
